@@ -21,23 +21,23 @@ import (
 )
 
 type HarnessResult struct {
-	Harness     string         `json:"harness"`
-	Stats       Stats          `json:"stats"`
-	Violations  []Violation    `json:"violations"`
-	Aborts      map[string]int `json:"aborts"`
-	Tags        map[string]int64 `json:"tags"`
-	Functions   []string       `json:"functions"`
-	Samples     []string       `json:"samples"`
-	SampleVecs  [][]uint64     `json:"sample_vecs"`
-	WallS       float64        `json:"wall_s"`
-	TimedOut    bool           `json:"timed_out"`
-	SolverQ     int            `json:"solver_queries"`
-	SolverSat   int            `json:"solver_sat"`
-	SolverUnsat int            `json:"solver_unsat"`
-	SolverUnk   int            `json:"solver_unknown"`
-	SolverErr   int            `json:"solver_errors"`
-	SolverS     float64        `json:"solver_s"`
-	SolverFallbacks int        `json:"solver_oneshot_fallbacks"`
+	Harness         string           `json:"harness"`
+	Stats           Stats            `json:"stats"`
+	Violations      []Violation      `json:"violations"`
+	Aborts          map[string]int   `json:"aborts"`
+	Tags            map[string]int64 `json:"tags"`
+	Functions       []string         `json:"functions"`
+	Samples         []string         `json:"samples"`
+	SampleVecs      [][]uint64       `json:"sample_vecs"`
+	WallS           float64          `json:"wall_s"`
+	TimedOut        bool             `json:"timed_out"`
+	SolverQ         int              `json:"solver_queries"`
+	SolverSat       int              `json:"solver_sat"`
+	SolverUnsat     int              `json:"solver_unsat"`
+	SolverUnk       int              `json:"solver_unknown"`
+	SolverErr       int              `json:"solver_errors"`
+	SolverS         float64          `json:"solver_s"`
+	SolverFallbacks int              `json:"solver_oneshot_fallbacks"`
 }
 
 type RunResult struct {
